@@ -50,6 +50,17 @@ Definition example_def : stmts :=
     (SReturn (P 2 4 2 12) (Some (EName (P 2 11 2 12) "a"))) SNil) SNil).
 Example example_def_wf : wf_ss example_def.
 Proof. cbn. intuition. Qed.
+(* ... and `@dec  class A(B, metaclass=M): pass` *)
+Definition example_class : stmts :=
+  SCons (SClass (P 2 0 3 8) "A" (ECons (EName (P 2 8 2 9) "B") ENil) (KCons "metaclass" (EName (P 2 21 2 22) "M") KNil)
+           (ECons (EName (P 1 1 1 4) "dec") ENil) (SPass (P 3 4 3 8)) SNil) SNil.
+Example example_class_wf : wf_ss example_class.
+Proof. cbn. intuition. Qed.
+Example example_class_value :
+  read_native (emit example_class) =
+    Some [MClassDef (P 2 0 3 8) "A" (MBlock (P 3 4 3 8) false [MPass (P 3 4 3 8)]) [MName (P 2 8 2 9) "B"]
+            (Some (MName (P 2 21 2 22) "M")) [("metaclass"%string, MName (P 2 21 2 22) "M")] [MName (P 1 1 1 4) "dec"]].
+Proof. vm_compute. reflexivity. Qed.
 Example clamp_example : report_clamp 3 (Some 7) None None = (3, 7, 3, 8) /\ report_clamp 3 None (Some 1) (Some 0) = (3, -1, 3, 0).
 Proof. split; reflexivity. Qed.
 
